@@ -1,7 +1,7 @@
 (* Props/C09.v — Mandatory structure is enforced and the error names the culprit.
    Property theorems only. *)
 
-From SwiftMT Require Import Base.Bytes Engine.Layout Engine.Tokens Engine.Facts Engine.Instance Engine.Extract Engine.Factor Engine.FactorInstance.
+From SwiftMT Require Import Base.Bytes Engine.Layout Engine.Tokens Engine.Facts Engine.Instance Engine.Extract Engine.Factor Engine.FactorInstance Engine.Regex Engine.Abs Engine.AbsSound Engine.Total Engine.AbsInstance Engine.AbsResult gen.Specs.
 
 Lemma layout_dropfree : forall T L, In (T, L) all_layouts -> dropfree L = true.
 Proof.
@@ -46,8 +46,33 @@ Theorem C09_rejection_names_culprit_bytes : forall T L, In (T, L) all_layouts ->
   brun fparse fuel L (w ++ render crlf toks) = Reject e -> reject_ok fparse toks e.
 Proof. exact reject_sound_bytes. Qed.
 
+(* MANDATORY STRUCTURE IS ENFORCED, unbounded.  gen/Specs.v lists, per type, the languages obtained from the independent
+   specification by leaving out exactly one mandatory element: a mandatory field, every occurrence of a mandatory
+   repetitive field, a whole mandatory sequence, or a mandatory element of one occurrence of a sequence (that occurrence
+   anywhere among any number of complete ones): 139 languages over the 30 types.  For each of them except the one
+   listed in deletion_open (MT935 B.37H, where the analysis is too coarse; the library does reject), EVERY text whose tag sequence is a word of the language and whose tokens are good (see
+   Props/C03.v) is rejected by the regenerated layout, and the error is true of the text (what is reported missing is
+   not the next field, what is reported malformed is in the text and its parser rejects it).  Proved by the same
+   abstract interpreter as the inclusion of C03, in the mode that drops the paths that certainly reject
+   (Engine/Abs.v, lax; soundness Engine/AbsSound.v, excludes_rejects); recomputed on every run. *)
+Theorem C09_missing_mandatory_element_is_rejected : forall T L ds what D,
+  lookup T all_layouts = Some L -> lookup T spec_deletions = Some ds ->
+  In (what, D) ds -> pair_mem (T, what) deletion_open = false ->
+  forall fparse toks, matches D (map fst toks) -> Forall (good_token fparse L) toks ->
+  forall f, lsize L + List.length toks + 1 <= f ->
+  exists e, trun fparse f L toks = Reject e /\ reject_ok fparse toks e.
+Proof. exact deletion_rejected. Qed.
+
+(* the general statement: any layout that passes the analysis in its rejecting mode rejects every good word *)
+Theorem C09_rejection_analysis_is_sound : forall fparse fp U n L R, excludes fp U n L R = true -> loops_ok L = true ->
+  forall toks, matches R (map fst toks) -> Forall (good fparse fp U) toks ->
+  forall f, lsize L + List.length toks + 1 <= f -> exists e, trun fparse f L toks = Reject e.
+Proof. exact excludes_rejects. Qed.
+
 Print Assumptions C09_rejection_names_culprit.
 Print Assumptions C09_mandatory_missing.
 Print Assumptions C09_bad_content_mandatory.
 Print Assumptions C09_bad_content_optional.
 Print Assumptions C09_rejection_names_culprit_bytes.
+Print Assumptions C09_missing_mandatory_element_is_rejected.
+Print Assumptions C09_rejection_analysis_is_sound.
